@@ -6,6 +6,7 @@ and Destroy.  Core-only.
 -/
 import GoSandbox.GoLite.Exec
 import GoSandbox.Gen.C20
+import GoSandbox.Model.PathResolve
 namespace GoSandbox.Model.Cgroup
 open GoSandbox.GoLite
 
@@ -139,6 +140,47 @@ def genAddProcV1 (allP : List String) : Except String (List String) :=
   let c : Val := .strct [("all", .list (allP.map ctl))]
   match runBody dcfg [] Gen.C20.addProcV1.body [("pids", .list [.int 7]), ("c", c)] { dirs := allP } 600 with
   | .ok (_, _, w) => .ok w.log
+  | .error e => .error e
+
+/-! ### (c') creation of a v2 group by the regenerated New / Nest / newV2 -/
+
+def vext (name : String) (args : List Val) (env : Env) (w : DW) : Except String (Val × DW) :=
+  match name, args with
+  | "c.enableSubtreeControl", _ => .ok (.nil, w)
+  | "filepath.Join", l => .ok (.str (PathResolve.join (l.map (fun v => match v with | .str s => s | _ => "?"))), w)
+  | "c.Processes", _ => .ok (.tup [.list [.int 41, .int 42], .nil], w)
+  | "v2.AddProc...", [.list ps] => .ok (.nil, { w with log := w.log ++ [s!"addproc {ps.length}"] })
+  | "ct.Names", _ => .ok (.list [], w)
+  | "strings.Join", _ => .ok (.str "", w)
+  | "strings.Split", [.str s, .str "/"] => .ok (.list ((PathResolve.splitSlash s).map Val.str), w)
+  | "?", [v] => .ok (v, w)                       -- []byte(...) conversion
+  | "getAvailableControllerV2", _ => .ok (.tup [.str "ect", .nil], w)
+  | "ect.Contains", _ => .ok (.bool true, w)
+  | _, _ => dext name args env w
+
+def vcfg : Cfg DW := { ext := vext, glob := fun n =>
+  if n == "basePath" then some (.str "/cg") else if n == "dirPerm" then some (.int 493) else dcfg.glob n }
+
+/-- (Existing() of the returned handle, its path, directories afterwards, log) -/
+def handleOf (r : Option (List Val)) (w : DW) : Except String (Bool × String × List String × List String) :=
+  match r with
+  | some [.strct fs, .nil] =>
+    let ex := match recGet fs "existing" with | some (.bool b) => b | _ => false
+    let p := match recGet fs "path" with | some (.str p) => p | _ => "?"
+    .ok (ex, p, w.dirs, w.log)
+  | _ => .error "no handle returned"
+
+def genNewSubV2 (nest : Bool) (parent name : String) (dirs : List String) : Except String (Bool × String × List String × List String) :=
+  let f := if nest then Gen.C20.nestV2 else Gen.C20.newSubV2
+  match runBody vcfg f.results f.body [("name", .str name), ("c", .strct [("path", .str parent), ("control", .str "ct")])] { dirs := dirs } 400 with
+  | .ok (r, _, w) => handleOf r w
+  | .error e => .error e
+
+/-- newV2 without its deferred clean-up (which only runs on the error paths) -/
+def genNewV2 (pfx : String) (dirs : List String) : Except String (Bool × String × List String × List String) :=
+  let body := Gen.C20.newV2.body.filter (fun s => match s with | .other "defer" => false | _ => true)
+  match runBody vcfg Gen.C20.newV2.results body [("ct", .str "ct"), ("prefix", .str pfx)] { dirs := dirs } 800 with
+  | .ok (r, _, w) => handleOf r w
   | .error e => .error e
 
 /-! ### (d) ownership over histories (hand model; primitive granularity: one mkdir / one Destroy) -/
